@@ -3,6 +3,7 @@ package gen
 import (
 	"fmt"
 	"math/rand"
+	"strings"
 
 	"verifharness/ty"
 )
@@ -53,6 +54,14 @@ func Lib() *ty.Env {
 	// named byte and rune types: slices of them are not []byte / []rune
 	add("NU8", "", b("uint8"), false) // 29
 	add("NR", "", b("int32"), false)  // 30
+	// types that declare their own Equal / Compare / Hash methods (they look at the first field only, so
+	// that the method's answer can be told from the structural one): UE1 with pointer receivers and
+	// parameters, UE2 with value receivers and parameters
+	ue1 := add("UE1", "", ty.St(f("A", b("int")), f("B", ty.Sl(b("int")))), false) // 31
+	e.Decls[ue1].Methods = "Ep.Cp.Hp"
+	ue2 := add("UE2", "", ty.St(f("A", b("int")), f("B", b("string"))), false) // 32
+	e.Decls[ue2].Methods = "Ev.Cv"
+	add("UW", "", ty.St(f("P", ty.P(ty.N(31))), f("V", ty.N(31)), f("Q", ty.P(ty.N(32))), f("W", ty.N(32)), f("L", ty.Sl(ty.N(31))), f("M", ty.M(b("string"), ty.N(32))), f("R", ty.Ar(2, ty.N(32)))), false) // 33
 	return e
 }
 
@@ -182,4 +191,27 @@ func (c *Corpus) Random(rng *rand.Rand, depth int) *ty.Ty {
 		}
 		return ty.St(fs...)
 	}
+}
+
+// MethodSrc is the Go source of the methods a declaration declares (Decl.Methods lists them as
+// "Ep" / "Ev" = Equal with pointer / value parameter, "Cp" / "Cv" = Compare, "Hp" = Hash() int32 on a
+// pointer receiver). Every method looks at the first field (an int) only; pointer methods are nil-safe.
+func MethodSrc(d *ty.Decl) string {
+	n := d.Name
+	src := ""
+	for _, m := range strings.Split(d.Methods, ".") {
+		switch m {
+		case "Ep":
+			src += fmt.Sprintf("func (this *%[1]s) Equal(that *%[1]s) bool {\n\tif this == nil || that == nil {\n\t\treturn this == nil && that == nil\n\t}\n\treturn this.A == that.A\n}\n\n", n)
+		case "Ev":
+			src += fmt.Sprintf("func (this %[1]s) Equal(that %[1]s) bool { return this.A == that.A }\n\n", n)
+		case "Cp":
+			src += fmt.Sprintf("func (this *%[1]s) Compare(that *%[1]s) int {\n\tif this == nil {\n\t\tif that == nil {\n\t\t\treturn 0\n\t\t}\n\t\treturn -1\n\t}\n\tif that == nil {\n\t\treturn 1\n\t}\n\tif this.A < that.A {\n\t\treturn -1\n\t}\n\tif this.A > that.A {\n\t\treturn 1\n\t}\n\treturn 0\n}\n\n", n)
+		case "Cv":
+			src += fmt.Sprintf("func (this %[1]s) Compare(that %[1]s) int {\n\tif this.A < that.A {\n\t\treturn -1\n\t}\n\tif this.A > that.A {\n\t\treturn 1\n\t}\n\treturn 0\n}\n\n", n)
+		case "Hp":
+			src += fmt.Sprintf("func (this *%[1]s) Hash() int32 {\n\tif this == nil {\n\t\treturn 0\n\t}\n\treturn int32(this.A)\n}\n\n", n)
+		}
+	}
+	return src
 }
